@@ -244,6 +244,8 @@ func BinaryRead(reader io.ReadSeeker, order binary.ByteOrder, data interface{}) 
 }
 
 func BinaryWrite(writer io.Writer, order binary.ByteOrder, data interface{}) (err error) {
+	verifCrashPoint()
+
 	defer func() {
 		err2 := recover()
 		if err2 == nil {
